@@ -226,6 +226,12 @@ Definition tstep (s : tstate) (i : tin) (oracle : list hans) : tstate * list tou
       | None => (s, [])                              (* no data-transfer extension: not ours *)
       | Some m =>
           let k : chid := if g_isreq m then (p, self, g_tid m) else (self, p, g_tid m) in
+          if g_isreq m && is_cancel m then
+            (* a cancel request is not a request for data: the handler is consulted without
+               tracking or locking the channel (it cleans the channel up itself) and the graphsync
+               request is terminated whatever it answers (fix #6) *)
+            (s, [OH (HRequestReceived k m); OAct ATerminate])
+          else
           let c := track k s in
           let '(a, _) := pop_ans oracle in
           let call := if g_isreq m then OH (HRequestReceived k m) else OH (HResponseReceived k m) in
